@@ -438,7 +438,8 @@ pub fn run_clauses(clauses: &[Clause], tier: Tier, seed: u64, kf: &KnownFindings
         }
         match &c.source {
             Source::Generated { quick, thorough, .. } => {
-                let total = tier.pick(quick.saturating_mul(crate::props::quick_scale(c.property)).min(*thorough), *thorough);
+                let th = (*thorough / crate::props::thorough_div(c.property)).max(1);
+                let total = tier.pick(quick.saturating_mul(crate::props::quick_scale(c.property)).min(th), th);
                 let mut done = 0;
                 let mut shard = 0;
                 while done < total {
